@@ -34,11 +34,12 @@ MODULES = ["numba_utils", "dissimilarity", "continuum", "alignment", "sampler", 
 # fake numba
 # --------------------------------------------------------------------------------------
 class _T:
-    def __init__(self, name="t"):
+    def __init__(self, name="t", args=()):
         self.name = name
+        self.args = args
 
     def __call__(self, *a, **k):
-        return _T(self.name + "()")
+        return _T(self.name + "()", a)
 
     def __getitem__(self, k):
         return _T(self.name + "[]")
@@ -52,6 +53,21 @@ class _T:
 def _njit(*a, **k):
     if len(a) == 1 and callable(a[0]) and not isinstance(a[0], _T):
         return a[0]
+    sig = a[0] if a and isinstance(a[0], _T) else None
+    if sig is not None and any(getattr(t, "name", "") in ("float32", "float64") for t in sig.args):
+        # an explicit signature with scalar float arguments: IEEE-mode values are converted to the declared width on entry
+        # (real-mode values pass through untouched)
+        import functools
+        from . import fp as _fp
+
+        def deco(f):
+            @functools.wraps(f)
+            def g(*args):
+                if any(isinstance(x, _fp.SymFP) for x in args):
+                    args = _fp.njit_coerce(sig.args, args)
+                return f(*args)
+            return g
+        return deco
     return lambda f: f
 
 
